@@ -101,6 +101,19 @@ def through_callee_kw(result, vals):
         callee_kw(result, i, v=vals[i])
 
 
+@numba.jit(nopython=True, parallel=True)
+def scratch_rows_by_view(result, vals, nrows):
+    work = np.empty((nrows, 4))
+    for i in numba.prange(len(vals)):
+        row = work[i % nrows]
+        for j in range(4):
+            row[j] = vals[i] + j
+        acc = 0.0
+        for j in range(4):
+            acc += row[j]
+        result[i] = acc
+
+
 def run(kernel, args, cfg=None):
     out = Outcome()
     cfg = dict(cfg or {})
@@ -178,6 +191,14 @@ def main():
     res = np.zeros(5)
     out = run(through_callee_kw, (res, np.arange(5.0) + 1))
     bad += expect("callee with keyword argument: interpreted, quiet", not out.violations and np.array_equal(res, np.arange(5.0) + 1))
+    # scratch rows reached through a view of a shared array: shared between iterations i and i + nrows
+    res = np.zeros(6)
+    out = run(scratch_rows_by_view, (res, np.arange(6.0) + 1, 2), {"K": 0})
+    bad += expect("scratch rows through a view (2 rows, 6 iterations): found by directed schedules", any(v["kind"] == "schedule_changes_result" for v in out.violations))
+    bad += expect("scratch rows through a view: write discovered", out.probes.get("write_discovered_through_callee", 0) > 0)
+    res = np.zeros(6)
+    out = run(scratch_rows_by_view, (res, np.arange(6.0) + 1, 6))
+    bad += expect("scratch rows through a view (one row per iteration): quiet", not out.violations and np.array_equal(res, 4 * (np.arange(6.0) + 1) + 6))
     # a kernel whose summation order depends on numba.get_num_threads()
     res = np.zeros(1)
     vals = 1.0 / (np.arange(40.0) + 3.0)
